@@ -14,6 +14,7 @@ mod c04;
 mod c06;
 mod c07;
 mod c08;
+mod c09;
 mod c17;
 
 struct PropDef {
@@ -58,6 +59,11 @@ const PROPS: &[PropDef] = &[PropDef {
     level: "exploration",
     run: c08::run,
     replay: c08::replay,
+}, PropDef {
+    id: "C09",
+    level: "fault_enumeration",
+    run: c09::run,
+    replay: c09::replay,
 }, PropDef {
     id: "C17",
     level: "exploration",
